@@ -10,7 +10,7 @@ Strict: an assignment target on `self` it cannot name raises."""
 import ast
 from typing import List
 
-from harness.extract.util import class_def, find_method, parse
+from harness.extract.util import class_def, find_function, find_method, parse
 
 GEN_NAME = "IsolationReset"
 
@@ -56,8 +56,196 @@ def _l(xs) -> str:
     return "[" + ", ".join('"' + x.replace("\\", "\\\\").replace('"', "'") + '"' for x in xs) + "]"
 
 
+# ------------------------------------------------------------------------------------------------ the seed argument
+class _Unrec(ValueError):
+    pass
+
+
+def _is_doc(s: ast.stmt) -> bool:
+    return isinstance(s, ast.Expr) and isinstance(s.value, ast.Constant) and isinstance(s.value.value, str)
+
+
+def _int_const(e: ast.AST):
+    if isinstance(e, ast.Constant) and isinstance(e.value, int) and not isinstance(e.value, bool):
+        return e.value
+    if isinstance(e, ast.UnaryOp) and isinstance(e.op, ast.USub) and isinstance(e.operand, ast.Constant) and isinstance(e.operand.value, int):
+        return -e.operand.value
+    return None
+
+
+_CMP = {ast.Eq: "=", ast.NotEq: "≠", ast.Lt: "<", ast.LtE: "≤", ast.Gt: ">", ast.GtE: "≥"}
+
+
+def _opt_bool(e: ast.AST, name: str) -> str:
+    """Lean Bool for Python's `bool(e)` where `name : Option Int` is the only free variable (an `Optional[int]` parameter).
+    `is None` / `is not None`, truthiness (None and 0 are falsy), comparisons with integer literals (None compares unequal to every
+    integer; an ORDER comparison of None would raise TypeError in Python: refused here unless an `is not None` conjunct guards it),
+    `and` / `or` / `not`."""
+    if isinstance(e, ast.Name) and e.id == name:
+        return f"(match {name} with | some v => decide (v ≠ 0) | none => false)"
+    if isinstance(e, ast.Constant) and isinstance(e.value, bool):
+        return "true" if e.value else "false"
+    if isinstance(e, ast.UnaryOp) and isinstance(e.op, ast.Not):
+        return f"(!{_opt_bool(e.operand, name)})"
+    if isinstance(e, ast.BoolOp):
+        if isinstance(e.op, ast.And):
+            guarded = any(isinstance(v, ast.Compare) and isinstance(v.ops[0], ast.IsNot) for v in e.values[:1])
+            return "(" + " && ".join(_opt_bool(v, name) if not (guarded and i > 0) else _opt_bool_some(v, name) for i, v in enumerate(e.values)) + ")"
+        return "(" + " || ".join(_opt_bool(v, name) for v in e.values) + ")"
+    if isinstance(e, ast.Compare) and len(e.ops) == 1 and isinstance(e.left, ast.Name) and e.left.id == name:
+        op, rhs = e.ops[0], e.comparators[0]
+        if isinstance(op, (ast.Is, ast.IsNot)) and isinstance(rhs, ast.Constant) and rhs.value is None:
+            return f"({name}).isNone" if isinstance(op, ast.Is) else f"({name}).isSome"
+        c = _int_const(rhs)
+        if c is not None and isinstance(op, (ast.Eq, ast.NotEq)):
+            neg = "true" if isinstance(op, ast.NotEq) else "false"
+            return f"(match {name} with | some v => decide (v {_CMP[type(op)]} {c}) | none => {neg})"
+    raise _Unrec(f"seed test not recognised: {ast.unparse(e)}")
+
+
+def _opt_bool_some(e: ast.AST, name: str) -> str:
+    """a conjunct evaluated only when `name is not None` held: order comparisons are allowed"""
+    if isinstance(e, ast.Compare) and len(e.ops) == 1 and isinstance(e.left, ast.Name) and e.left.id == name and type(e.ops[0]) in _CMP:
+        c = _int_const(e.comparators[0])
+        if c is not None:
+            return f"(match {name} with | some v => decide (v {_CMP[type(e.ops[0])]} {c}) | none => false)"
+    return _opt_bool(e, name)
+
+
+def _int_bool(e: ast.AST, name: str) -> str:
+    """Lean Bool for a test on `v : Int` (the value of the parameter `name`, known not to be None)"""
+    if isinstance(e, ast.Compare) and len(e.ops) == 1 and isinstance(e.left, ast.Name) and e.left.id == name and type(e.ops[0]) in _CMP:
+        c = _int_const(e.comparators[0])
+        if c is not None:
+            return f"decide (v {_CMP[type(e.ops[0])]} {c})"
+    if isinstance(e, ast.BoolOp):
+        return "(" + (" && " if isinstance(e.op, ast.And) else " || ").join(_int_bool(v, name) for v in e.values) + ")"
+    if isinstance(e, ast.UnaryOp) and isinstance(e.op, ast.Not):
+        return f"(!{_int_bool(e.operand, name)})"
+    if isinstance(e, ast.Name) and e.id == name:
+        return "decide (v ≠ 0)"
+    raise _Unrec(f"test on the seed value not recognised: {ast.unparse(e)}")
+
+
+def _seed_function(env_tree: ast.Module):
+    """`set_random_seed(seed, generate_seed_value)`: strict shape
+         if seed is None or <T1 over the value>:   (no-seed branch)
+             if generate_seed_value: <draw a seed from entropy> else: return None
+         elif <T2 over the value>: raise …
+         random.seed(seed); np.random.seed(seed); [if torch: th.manual_seed(seed) …]; return seed
+    -> (lean text of the function, the seeding calls as (callee, argument, nesting))"""
+    fn = find_function(env_tree, "set_random_seed")
+    params = [a.arg for a in fn.args.args]
+    if len(params) != 2:
+        raise _Unrec(f"set_random_seed: parameters {params}")
+    sd, gen = params
+    body = [s for s in fn.body if not _is_doc(s)]
+    if not body or not isinstance(body[0], ast.If):
+        raise _Unrec("set_random_seed: the first statement is not the no-seed test")
+    first = body[0]
+    t = first.test
+    if not (isinstance(t, ast.BoolOp) and isinstance(t.op, ast.Or) and isinstance(t.values[0], ast.Compare) and isinstance(t.values[0].ops[0], ast.Is)
+            and ast.unparse(t.values[0]) == f"{sd} is None"):
+        # `seed is None` alone
+        if ast.unparse(t) == f"{sd} is None":
+            rest_t1 = "false"
+        else:
+            raise _Unrec(f"set_random_seed: no-seed test is not `{sd} is None or …`: {ast.unparse(t)}")
+    else:
+        rest = t.values[1:]
+        rest_t1 = _int_bool(rest[0] if len(rest) == 1 else ast.BoolOp(op=ast.Or(), values=rest), sd)
+    # the no-seed branch: `if generate_seed_value: … else: return None`
+    nb = [s for s in first.body if not _is_doc(s)]
+    if not (len(nb) == 1 and isinstance(nb[0], ast.If) and ast.unparse(nb[0].test) == gen and len(nb[0].orelse) == 1
+            and isinstance(nb[0].orelse[0], ast.Return) and (nb[0].orelse[0].value is None or ast.unparse(nb[0].orelse[0].value) == "None")):
+        raise _Unrec("set_random_seed: the no-seed branch is not `if generate_seed_value: … else: return None`")
+    if any(isinstance(x, ast.Return) for s in nb[0].body for x in ast.walk(s)) or not any(
+            isinstance(s, ast.Assign) and ast.unparse(s.targets[0]) == sd for s in nb[0].body):
+        raise _Unrec("set_random_seed: the generate branch does not bind a new seed and fall through")
+    # elif: raise
+    t2 = "false"
+    if first.orelse:
+        if not (len(first.orelse) == 1 and isinstance(first.orelse[0], ast.If) and not first.orelse[0].orelse
+                and len(first.orelse[0].body) == 1 and isinstance(first.orelse[0].body[0], ast.Raise)):
+            raise _Unrec("set_random_seed: the second branch is not `elif <test>: raise …`")
+        t2 = _int_bool(first.orelse[0].test, sd)
+    # the seeding statements
+    calls = []
+    returned = None
+    for st in body[1:]:
+        if isinstance(st, ast.Return):
+            returned = ast.unparse(st.value) if st.value is not None else "None"
+            break
+        nest = "top" if isinstance(st, ast.Expr) else "if " + ast.unparse(st.test) if isinstance(st, ast.If) else None
+        if nest is None:
+            raise _Unrec(f"set_random_seed: statement after the tests not recognised: {ast.unparse(st)[:60]}")
+        for x in ast.walk(st):
+            if isinstance(x, ast.Call) and isinstance(x.func, ast.Attribute) and x.func.attr in ("seed", "manual_seed", "manual_seed_all"):
+                calls.append((ast.unparse(x.func), ", ".join(ast.unparse(a) for a in x.args), nest))
+        if any(isinstance(x, (ast.Assign, ast.AugAssign)) and any(ast.unparse(tg) == sd for tg in (x.targets if isinstance(x, ast.Assign) else [x.target]))
+               for x in ast.walk(st)):
+            raise _Unrec("set_random_seed: the seed is re-bound after the tests")
+    if returned != sd:
+        raise _Unrec(f"set_random_seed: returns {returned}, not the seed")
+    lean = (f"def setRandomSeed (seed : Option Int) (gen : Bool) : SeedOutcome :=\n"
+            f"  match seed with\n"
+            f"  | none => if gen then .generated else .keeps\n"
+            f"  | some v => if {rest_t1} then (if gen then .generated else .keeps) else if {t2} then .raises else .seeds v")
+    return lean, calls, sd
+
+
+def _reset_seed_statement(reset: ast.FunctionDef):
+    """the ONE top-level statement of `reset` that calls `set_random_seed`: `if <guard over seed>: set_random_seed(seed, self.generate_seed_value)`
+    (no else), before `self.game = …` -> (guard as Lean Bool over `seed : Option Int`, the call as written, index of the statement, index of the game statement)"""
+    hits = [(i, st) for i, st in enumerate(reset.body) if any(isinstance(x, ast.Call) and ast.unparse(x.func).split(".")[-1] == "set_random_seed" for x in ast.walk(st))]
+    if len(hits) != 1:
+        raise _Unrec(f"reset: {len(hits)} top-level statements call set_random_seed")
+    i, st = hits[0]
+    params = [a.arg for a in reset.args.args]
+    if "seed" not in params:
+        raise _Unrec(f"reset: no parameter `seed`: {params}")
+    default = reset.args.defaults[params.index("seed") - (len(params) - len(reset.args.defaults))] if len(reset.args.defaults) >= len(params) - params.index("seed") else None
+    if default is None or ast.unparse(default) != "None":
+        raise _Unrec("reset: the default of `seed` is not None")
+    for j, s2 in enumerate(reset.body[:i]):
+        if any(isinstance(x, (ast.Assign, ast.AugAssign, ast.AnnAssign)) and "seed" in [ast.unparse(t) for t in (x.targets if isinstance(x, ast.Assign) else [x.target])]
+               for x in ast.walk(s2)):
+            raise _Unrec("reset: `seed` is re-bound before it is tested")
+    if isinstance(st, ast.Expr) and isinstance(st.value, ast.Call):
+        guard, call = "true", st.value          # unconditional call
+    elif isinstance(st, ast.If) and not st.orelse and len(st.body) == 1 and isinstance(st.body[0], ast.Expr) and isinstance(st.body[0].value, ast.Call):
+        guard, call = _opt_bool(st.test, "seed"), st.body[0].value
+    else:
+        raise _Unrec(f"reset: the seeding statement is not `if <test>: set_random_seed(…)`: {ast.unparse(st)[:80]}")
+    game_i = next((k for k, s2 in enumerate(reset.body) if isinstance(s2, (ast.Assign, ast.AnnAssign)) and
+                   ast.unparse(s2.targets[0] if isinstance(s2, ast.Assign) else s2.target) == "self.game"), None)
+    return guard, ast.unparse(call), i, game_i
+
+
+def _init_seed_statements(init: ast.FunctionDef):
+    """top-level statements of `__init__` that bind `self.seed` / `self.generate_seed_value`, as written, and whether all of them precede
+    the `self.game = …` statement"""
+    out = []
+    game_i = None
+    last = -1
+    for k, st in enumerate(init.body):
+        if isinstance(st, (ast.Assign, ast.AnnAssign)) and st.value is not None:
+            tgt = ast.unparse(st.targets[0] if isinstance(st, ast.Assign) else st.target)
+            if tgt in ("self.seed", "self.generate_seed_value"):
+                out.append(f"{tgt} = {ast.unparse(st.value)}")
+                last = k
+            if tgt == "self.game" and game_i is None:
+                game_i = k
+    nested = [ast.unparse(x)[:60] for st in init.body if not isinstance(st, (ast.Assign, ast.AnnAssign, ast.Expr)) for x in ast.walk(st)
+              if isinstance(x, ast.Call) and "set_random_seed" in ast.unparse(x.func)]
+    if nested:
+        raise _Unrec(f"__init__: set_random_seed called inside a compound statement: {nested}")
+    return out, (game_i is not None and last < game_i)
+
+
 def emit() -> str:
-    env = class_def(parse("session/environment.py"), "PrimaiteGymEnv")
+    env_tree = parse("session/environment.py")
+    env = class_def(env_tree, "PrimaiteGymEnv")
     methods = {n.name: n for n in env.body if isinstance(n, ast.FunctionDef)}
     for need in ("__init__", "reset", "step", "_get_obs", "close"):
         if need not in methods:
@@ -121,7 +309,25 @@ def emit() -> str:
     for n in ast.walk(lst):
         if isinstance(n, ast.Assign) and len(n.targets) == 1 and ast.unparse(n.targets[0]) in lst_ret:
             parsed_from = ast.unparse(n.value.func) if isinstance(n.value, ast.Call) else ast.unparse(n.value)
-    return f"""namespace Primaite.Gen.IsolationReset
+    seed_fn, seed_calls, seed_param = _seed_function(env_tree)
+    guard, seed_call, seed_i, game_i = _reset_seed_statement(reset)
+    init_seed, init_seed_first = _init_seed_statements(methods["__init__"])
+    # every function of the package that (re)seeds a process-global generator
+    return f"""import PrimaiteModel.Model.Isolation
+namespace Primaite.Gen.IsolationReset
+open Primaite.Isolation (SeedOutcome)
+/-- `set_random_seed({seed_param}, …)` translated from source (the tests on the value as written) -/
+{seed_fn}
+/-- the calls that seed a process-global generator in `set_random_seed`, after its tests: (callee, argument, `top` = unconditional) -/
+def seedCalls : List (String × String × String) := [{", ".join("(" + _l([c, a, n])[1:-1] + ")" for c, a, n in seed_calls)}]
+/-- the test in front of `set_random_seed(…)` in `reset`, over the parameter `seed : Optional[int]` (Python truthiness / `is None`) -/
+def resetSeedGuard (seed : Option Int) : Bool := {guard}
+/-- the seeding call of `reset` as written, and whether that statement is a top-level statement BEFORE `self.game = …` -/
+def resetSeedCall : String := {_l([seed_call])[1:-1]}
+def resetSeedsBeforeNewGame : Bool := {"true" if (game_i is not None and seed_i < game_i) else "false"}
+/-- `__init__`: the statements binding `self.seed` / `self.generate_seed_value`, in order; all before `self.game = …` -/
+def initSeedStatements : List String := {_l(init_seed)}
+def initSeedsBeforeNewGame : Bool := {"true" if init_seed_first else "false"}
 /-- attributes of the environment object bound by `__init__` -/
 def initAssigns : List String := {_l(_assigned(methods['__init__']))}
 /-- attributes of the environment object (re)bound or mutated by `reset` -/
